@@ -1624,7 +1624,10 @@ class TwoDResponse(TwoDSpectrumBase, Saveable):
         
         twod.set_data_type(dtype)
         self.set_data_flag(dtype)
-        twod.set_data(self.d__data[:,:])
+        # the spectrum gets its own array: a view of the stored data would
+        # let operations on the spectrum (add_data, devide_by, normalize2)
+        # change what is stored in this response
+        twod.set_data(numpy.array(self.d__data[:,:], copy=True))
 
         return twod
 
